@@ -257,8 +257,10 @@ Print Assumptions C19_wf_single.
    run_line returns Ok with the model's own fuel [fuel_for] (no Hang -- in particular not site_lost_waiter --, no Abort, no
    Exit, no MemErr), the helper is back at its prompt, the plug names of the result lines are a permutation of the targeted
    known plugs (exactly one line each, duplicates counted), every unknown name is reported once, in order, and the
-   configuration is untouched.  ([answered st'] = plug names of the lines tagged TResult, [reported_unknown st'] = names in
-   the "unknown plug specified" lines.)
+   configuration is untouched; a stat line leaves the status table as it was, and the only power operations carried out
+   ([s_log]: one EvOp per simulated on/off) are operations of the command typed, on plugs that were targeted.
+   ([answered st'] = plug names of the lines tagged TResult, [reported_unknown st'] = names in the "unknown plug specified"
+   lines.)
    Proof: Proofs/RedfishLive.v (invariant: activecmds = stale ++ todo ++ new during a pass; the loop is synchronous in the
    depth of the plugs, so a stale entry of the pass copy is never mistaken for a live handler; every waiter has a live
    handler on an ancestor), Proofs/RedfishDrain.v (measure: table size - current depth + sum of message weights, decreasing
@@ -266,7 +268,9 @@ Print Assumptions C19_wf_single.
 Theorem C19_always_answers : forall hlc st ln sched c ts,
   at_prompt st -> ts_covers st -> power_line hlc st ln = Some (c, ts) -> in_domain st c ts = true ->
   exists st', run_line hlc st ln sched = Ok (st', false) /\ at_prompt st' /\ ts_covers st' /\ same_cfg st' st /\
-              Permutation (answered st') (known_targets st ts) /\ reported_unknown st' = unknown_targets st ts.
+              Permutation (answered st') (known_targets st ts) /\ reported_unknown st' = unknown_targets st ts /\
+              (c = CStat -> s_tstat st' = s_tstat st) /\
+              (forall c' p, In (EvOp c' p) (s_log st') -> c' = c /\ c <> CStat /\ In p (known_targets st ts)).
 Proof. exact always_answers. Qed.
 Example C19_always_answers_nonvacuous :
   (* three levels; L twice, its ancestor R, T below the failing host's S, an unknown name; polls released one per pass *)
@@ -275,10 +279,11 @@ Example C19_always_answers_nonvacuous :
   in_domain ex_on COff [bs "L"; bs "R"; bs "T"; bs "nosuch"; bs "L"]%string = true /\
   known_targets ex_on [bs "L"; bs "R"; bs "T"; bs "nosuch"; bs "L"]%string = [bs "L"; bs "R"; bs "T"; bs "L"]%string /\
   (exists st', run_line ex_hlc ex_on (bs "off L,R,T,nosuch,L"%string) [0; 1; 0; 1]%nat = Ok (st', false) /\
-               answered st' = [bs "T"; bs "R"; bs "L"; bs "L"]%string /\ reported_unknown st' = [bs "nosuch"%string]).
+               answered st' = [bs "T"; bs "R"; bs "L"; bs "L"]%string /\ reported_unknown st' = [bs "nosuch"%string] /\
+               s_log st' = [EvOp COff (bs "R"%string)]).
 Proof.
   split; [apply at_prompt_b; reflexivity|]. split; [apply ts_covers_b; reflexivity|].
-  repeat (split; [vm_compute; reflexivity|]). eexists. split; [vm_compute; reflexivity|]. split; vm_compute; reflexivity.
+  repeat (split; [vm_compute; reflexivity|]). eexists. split; [vm_compute; reflexivity|]. split; [vm_compute; reflexivity|]. split; vm_compute; reflexivity.
 Qed.
 Print Assumptions C19_always_answers.
 
